@@ -1451,6 +1451,7 @@ ReorderDataCallback(DataNode & node, void * userData)
    {
       DataNodeRef childNodeRef;
       if (indexNode->GetChild(node.GetNodeName(), childNodeRef).IsOK()) (void) indexNode->ReorderChild(childNodeRef, *static_cast<const String *>(userData), this);
+      if (indexNode->GetIndex()) _indexingPresent = true;  // disable optimization in GetDataCallback(), since ReorderChild() may have just created an index
    }
    return node.GetDepth();
 }
@@ -1846,6 +1847,7 @@ StorageReflectSession :: CloneDataNodeSubtree(const DataNode & node, const Strin
             const String & nodeName = (*index)[i]()->GetNodeName();
             if (clone->HasChild(nodeName)) MRETURN_ON_ERROR(clone->InsertIndexEntryAt(writeIdxCounter++, this, nodeName));
          }
+         _indexingPresent = true;  // disable optimization in GetDataCallback()
       }
       else return B_DATA_NOT_FOUND;
    }
